@@ -40,11 +40,11 @@ type c17Case struct {
 }
 
 type netID struct {
-	name      string
-	p2pkh     byte
-	p2sh      byte
-	hrp       string
-	params    *chaincfg.Params
+	name   string
+	p2pkh  byte
+	p2sh   byte
+	hrp    string
+	params *chaincfg.Params
 }
 
 // network identifiers written down from the Bitcoin address formats (not from chaincfg)
